@@ -144,19 +144,28 @@ def _zoom_stat(ctx, res, fn, what, val_origin_ok, is_bed):
 
 
 def ob_wig_zoom_stat(ctx, res):
-    fn = ctx.ast.fn(WW, "process_val_zoom")
+    fn = ctx.ast.fn(WW, "process_val_zoom", inline=True, keep=("encode_zoom_section",))
     _zoom_stat(ctx, res, fn, "wigZoomStat", lambda o: re.fullmatch(r"p\d+\.value", o) is not None, False)
 
 
 def ob_bed_zoom_stat(ctx, res):
-    fn = ctx.ast.fn(BW, "process_val_zoom")
+    fn = ctx.ast.fn(BW, "process_val_zoom", inline=True, keep=("encode_zoom_section",))
     r = _zoom_stat(ctx, res, fn, "bedZoomStat", lambda o: o.endswith(".value") and "remove_first" in o, True)
     if r is None:
         return
     # total_items of a closed record <- the paired counter (C08-F1)
     asg = [n for n in walk_no_nested_fn(fn.body) if n.k == "assign" and up(strip(n["l"])).endswith(".summary.total_items")]
-    if len(asg) != 2 or any(up(strip(a["r"])) != "total_items" for a in asg):
-        res.fail("bedZoomStat/items", fn, "a closed record's total_items must be set from the paired counter at both close sites")
+    def paired(a):
+        """`R.summary.total_items = N` where (R, N) are the two halves of one (record, count) pattern"""
+        rn, nn = up(strip(a["l"]))[:-len(".summary.total_items")], up(strip(a["r"]))
+        if not re.fullmatch(r"\w+", rn) or not re.fullmatch(r"\w+", nn):
+            return False
+        br, bn = binding_before(fn, rn, a), binding_before(fn, nn, a)
+        return br is not None and bn is not None and br[1] is bn[1] and br[-1] and bn[-1] and br[-1][-1] == 0 and bn[-1][-1] == 1 and br[-1][:-1] == bn[-1][:-1]
+    if len(asg) < 2:
+        res.fail("bedZoomStat/items", fn, "a closed record's total_items must be set from the paired counter at both close sites; found %d assignment(s)" % len(asg))
+    elif not all(paired(a) for a in asg):
+        res.fail("bedZoomStat/items", [a for a in asg if not paired(a)][0], "a closed record's total_items must be set from the counter paired with that record")
     else:
         res.ok(asg[0], "closed records receive total_items from the (record, count) pair at both close sites")
 
